@@ -263,6 +263,14 @@ def probe_portfolio(spec):
     return o
 
 
+def _raised_in(e):
+    """'eaopack' when the innermost frame of the exception lies in eaopack's own code, 'third-party' when it was raised inside
+    cvxpy / a solver interface / an import of a missing package"""
+    import traceback
+    tb = traceback.extract_tb(e.__traceback__)
+    return 'eaopack' if tb and '/eaopack/' in tb[-1].filename else 'third-party'
+
+
 # ------------------------------------------------------------------ C03: optimise arbitrary problems
 def problem_from_lp(d):
     """synthetic OptimProblem from a dict c,l,u,rows,b,cType,mapping"""
@@ -346,7 +354,8 @@ def probe_optim(spec):
                 # robust target over scaled / shifted copies of the cost vector; the reported value is documented to be that of the
                 # problem's own costs at the returned point
                 rs_ = np.random.RandomState(len(op.c) + int(kw['robust']))
-                smp = [op.c * f + rs_.randint(-4, 5, size=len(op.c)) / 8.0 for f in (0.5, 1.5, 0.75)][:int(kw['robust'])]
+                fin_ = np.isfinite(op.l) & np.isfinite(op.u)      # (costs of open-ended variables keep their sign: the scenario problems stay bounded)
+                smp = [op.c * f + fin_ * rs_.randint(-4, 5, size=len(op.c)) / 8.0 for f in (0.5, 1.5, 0.75)][:int(kw['robust'])]
                 res = op.optimize(target='robust', samples=smp)
             else:
                 res = op.optimize(**kw)
@@ -355,6 +364,7 @@ def probe_optim(spec):
         except Exception as e:
             r['solve'] = 'crash'
             r['error'] = repr(e)[:300]
+            r['where'] = _raised_in(e)
             o['runs'].append(r)
             continue
         if isinstance(res, str):
@@ -385,6 +395,7 @@ def probe_optim(spec):
             except Exception as e:
                 r['solve'] = 'crash'
                 r['error'] = repr(e)[:300]
+                r['where'] = _raised_in(e)
                 o['runs2'].append(r)
                 continue
             if isinstance(res, str):
